@@ -1,6 +1,7 @@
 package props
 
 import (
+	"os"
 	"fmt"
 	"sort"
 	"time"
@@ -389,12 +390,26 @@ func runVbft(c *simkit.Ctx, net *world.VbftNet, o vbftOpts) vbftStats {
 		}
 		switch t.Pick(wGate, wMsg, wTime) {
 		case 0:
+			if os.Getenv("VERIF_DEBUG_PARKED") != "" {
+				ks := ""
+				for _, g := range parked {
+					ks += g.Key() + " "
+				}
+				fmt.Fprintf(os.Stderr, "  ? parked: %s\n", ks)
+			}
 			g := parked[t.Choose(len(parked))]
 			net.Switch(g.A)
 			net.Sched.Release(g)
 			st.Releases++
 			c.Logf("run %s", g.Key())
 		case 1:
+			if os.Getenv("VERIF_DEBUG_PARKED") != "" {
+				ks := ""
+				for _, m := range net.Flight {
+					ks += fmt.Sprintf("%d>%d#%d/%d ", m.From, m.To, m.Seq, m.Kind)
+				}
+				fmt.Fprintf(os.Stderr, "  ? flight: %s\n", ks)
+			}
 			k := 0
 			if o.Reorder > 0 && t.Prob(o.Reorder, 1000) {
 				k = t.Choose(nf)
